@@ -11,6 +11,9 @@ Rules (all eight point types)
       by k, the eigen-decomposition is taken of the CARTESIAN block; the k handed to the tree is the size of the index buffers
   N4  the kd-tree query collects exactly the requested number of neighbours on every call (its result set is built with the
       requested k on every path of the call, not kept from an earlier query)
+  N6  neighbour coverage (E-STEP on the loop control): each loop of planeEstimation_ that subscripts neighborIndexes_ is run, control only, for
+      k = 3, 4, 7, 30; the subscripts it produces must be exactly 0..k-1, each once (a stride-2 loop without a remainder step drops the
+      last neighbour for odd k)
   N5  no early exit inside the quantifier: a guard in front of the per-point loop that returns is evaluated (E-STEP) on witness sizes
       N = k+1, k+2, 5k for k = 3, 10, 30 (the quantifier starts at clouds of k+1 points); if it leaves for one of them no normal is written
 Not decided: unit length, exactness on planes, rotational equivariance (numerical properties of the eigen-decomposition);
@@ -98,7 +101,24 @@ def check_compute(fx, R, cq, cname, f):
         if ok:
             R.holds('N1', inst, 'builds the tree from the same points and delegates with its arguments in order', loc, 'E-SIB')
         else:
-            R.undecided('N1', inst, 'delegation idiom not recognised: %s' % (st,))
+            # the tree handed to the kd-tree overload comes from a helper of the class: it must be BUILT from the points of this call on
+            # every path - a tree kept in the object and re-used when only the identity (address, size) of the point set matches was built
+            # over other coordinates (the search structure indexes the contents, which an in-place refill changes)
+            fact = None
+            if len(st) == 1 and st[0][0] == 'expr' and isinstance(st[0][1], tuple) and st[0][1][:3] == ('.compute', 'this', 'points') and isinstance(st[0][1][3], tuple) and st[0][1][3][1:] == ('this', 'points'):
+                hname = st[0][1][3][0].lstrip('.')
+                for h in fx.fn(cq + '::' + hname):
+                    if h.get('body') is None:
+                        continue
+                    top = h['body']['s'] if h['body'].get('k') == 'Compound' else []
+                    builds_uncond = any(x.get('k') in ('Expr', 'Decl') and ('KdTree' in pp(x.get('e')) if x.get('k') == 'Expr' else any('KdTree' in (v_['t'].get('s') or '') for v_ in x['vars'])) for x in top)
+                    cond_build = [x for x in top if x.get('k') == 'If' and any('KdTree' in pp(y.get('e')) for y in walk(x.get('t')) if y.get('k') == 'Expr')]
+                    returns_member = any(y.get('k') == 'Return' and 'this.' in pp(y.get('e')) for y in walk(h['body']))
+                    if cond_build and not builds_uncond and returns_member:
+                        fact = ('%s() hands the kd-tree overload a tree kept in the object, rebuilt only when `%s`; the condition compares the identity of the point set, not its coordinates: after the '
+                                'same buffer is refilled (a rotated or new cloud of the same size) the search runs on the split planes of the EARLIER coordinates and the neighbours are not the k nearest' % (
+                                    hname, pp(cond_build[0]['c'])))
+            R.form(False, 'N1', inst, 'delegation idiom not recognised: %s' % (st,), '', loc, 'E-SIB', facts=[(fact is not None, fact)])
         return
     loops = [x for x in walk(f['body']) if x.get('k') == 'For']
     if len(loops) != 1:
@@ -196,6 +216,13 @@ def check_compute(fx, R, cq, cname, f):
         R.form(len(rl) == 1 and rl[0][2] == ('.computeNormalReliability', 'this'), 'N2', inst + ':reliability', 'reliability is %s' % (rl,), 'computeNormalReliability()', loc, 'E-SIB')
 
 
+def _incr(t):
+    """loop increment as an assignment the step evaluator understands: i++ / ++i -> i += 1"""
+    if isinstance(t, tuple) and len(t) == 2 and t[0] in ('u++', '++u', 'u--', '--u'):
+        return ('+=' if '+' in t[0] else '-=', t[1], 1)
+    return t
+
+
 def _sizes(t):
     """x.size() -> x (the scalar abstraction of a container is its size)"""
     if isinstance(t, tuple):
@@ -252,6 +279,54 @@ def check_plane(fx, R, cq, cname, f):
                    '(mean divided by k: %s)' % (bad, div_mean), loc, 'E-STATE')
     else:
         R.undecided('N3', inst + ':covariance', 'covariance computation idiom not recognised (two-pass form expected): loops %d, bodies %s' % (len(loops), bodies))
+    # ---- N6 coverage of the k neighbour indexes by every accumulation loop ------------------------------------------------
+    from .. import mini
+    for ln, L in enumerate(loops):
+        subs_ = []
+        for x in walk(L['b']):
+            if x.get('k') in ('Op', 'Index') and 'neighborIndexes_' in pp(x):
+                t_ = deep_unwrap(sx(x))
+                if isinstance(t_, tuple) and len(t_) == 3 and t_[0] == '[]' and t_[1] == 'this.neighborIndexes_':
+                    subs_.append(t_[2])
+        subs_ = [e_ for i_, e_ in enumerate(subs_) if e_ not in subs_[:i_]]
+        if not subs_:
+            continue
+        init = L.get('init')
+        v = init['vars'][0] if init and init['k'] == 'Decl' and len(init['vars']) >= 1 else None
+        linst = '%s:loop%d:coverage' % (inst, ln)
+        if v is None or L.get('c') is None or L.get('inc') is None:
+            R.undecided('N6', linst, 'loop control not readable')
+            continue
+        bad = why = None
+        for kk in (3, 4, 7, 30):
+            env = {k: kk}
+            stp = mini.Step(deep_unwrap)
+            try:
+                for vv in init['vars']:
+                    env[vv['name']] = stp.ev(deep_unwrap(sx(vv['init'])), env)
+                seen = []
+                it = 0
+                while stp.ev(deep_unwrap(sx(L['c'])), env):
+                    seen += [stp.ev(e_, env) for e_ in subs_]
+                    stp.ev(_incr(deep_unwrap(sx(L['inc']))), env)
+                    it += 1
+                    if it > 200:
+                        raise mini.Unsupported('loop does not end')
+            except mini.Unsupported as e:
+                why = str(e)
+                break
+            if sorted(seen) != list(range(kk)):
+                missing = sorted(set(range(kk)) - set(seen))
+                dup = sorted({x_ for x_ in seen if seen.count(x_) > 1})
+                bad = bad or (kk, missing, dup, [x_ for x_ in seen if x_ >= kk or x_ < 0])
+        if why:
+            R.undecided('N6', linst, 'loop control not interpretable: %s' % why)
+        elif bad:
+            R.violated('N6', short_fn(cq.split('<')[0]) + '::planeEstimation_:loop%d:coverage' % ln, 'for k = %d the loop `for (%s; %s; %s)` subscripts neighborIndexes_ with %s: index(es) %s are never visited%s%s - the '
+                       'covariance is not that of the k nearest neighbours [%s]' % (bad[0], pp(init), pp(L['c']), pp(L['inc']), [str(e_) for e_ in subs_], bad[1],
+                                                                                ', %s more than once' % bad[2] if bad[2] else '', ', %s out of range' % bad[3] if bad[3] else '', cname), fx.rel(L['loc']), 'E-STEP')
+        else:
+            R.holds('N6', linst, 'subscripts %s cover 0..k-1 exactly once for k = 3, 4, 7, 30' % [str(e_) for e_ in subs_], fx.rel(L['loc']), 'E-STEP')
     eigs = [s for s in st if s[0] == 'expr' and isinstance(s[1], tuple) and s[1][:2] == ('.compute', 'this.eigenSolver_')]
     vals = ('expr', ('=', 'this.eigenValues_', ('.eigenvalues', 'this.eigenSolver_')))
     vecs = ('expr', ('=', 'this.eigenVectors_', ('.eigenvectors', 'this.eigenSolver_')))
